@@ -334,6 +334,7 @@ def run(chk, repo, tier):
     run_z10_z11(chk, repo)
     run_z12_z14(chk, repo)
     run_z15_z17(chk, repo)
+    run_z18_z19(chk, repo)
 
 
 def run_more(chk, repo):
@@ -651,3 +652,72 @@ def run_z15_z17(chk, repo):
                                           'reported next to NaN standard errors')
     if n17 == 0:
         raise AnalysisError('Z17: handler for the missing sd/corr standard errors not found')
+
+
+def run_z18_z19(chk, repo):
+    """Z18: the final OFV is read from the last table that passed the subproblem / design-optimality filter, i.e. from the
+    loop variable of the filtered loop, not from a position in the unfiltered table list; Z19: the method-specific name of the
+    objective-function column (SAEMOBJ, MCMCOBJ, ..) is normalised to OBJ before any table class that reads 'OBJ' is built"""
+    from sa.cfg import CFG
+    Z18 = chk.rule('Z18', '_parse_ofv: the table whose final_ofv is reported is the last one that passed the filter of the loop '
+                          'that collects the iterations', floor=1)
+    rm = repo.module('pharmpy.tools.external.nonmem.results')
+    po = rm.functions.get('_parse_ofv')
+    if po is None:
+        raise AnalysisError('Z18: _parse_ofv not found')
+    reads = [a for a in ast.walk(po.node) if isinstance(a, ast.Attribute) and a.attr == 'final_ofv' and isinstance(a.value, ast.Name)]
+    if not reads:
+        raise AnalysisError('Z18: no <table>.final_ofv read in _parse_ofv')
+    loops = [L for L in ast.walk(po.node) if isinstance(L, ast.For) and 'tables' in unparse(L.iter)
+             and any(isinstance(x, ast.Continue) for x in ast.walk(L))]
+    if not loops:
+        raise AnalysisError('Z18: no filtered loop over the ext tables in _parse_ofv')
+    for a in reads:
+        var = a.value.id
+        defs = [n for n in ast.walk(po.node) if isinstance(n, ast.Assign) and any(
+            isinstance(t, ast.Name) and t.id == var for t in n.targets)]
+        for d in defs:
+            if isinstance(d.value, ast.Constant) and d.value.value is None:
+                continue
+            L = next((L for L in loops if any(x is d for x in ast.walk(L))), None)
+            tnames = {x.id for x in ast.walk(L.target) if isinstance(x, ast.Name)} if L is not None else set()
+            after_filter = L is not None and any(
+                isinstance(s_, ast.If) and any(isinstance(x, ast.Continue) for x in ast.walk(s_)) and s_.lineno < d.lineno
+                for s_ in L.body)
+            ok = L is not None and isinstance(d.value, ast.Name) and d.value.id in tnames and after_filter
+            chk.instance(Z18, f'_parse_ofv: {unparse(d)} (read as {unparse(a)}): loop variable after the filter: {ok}')
+            if not ok:
+                chk.violation(Z18, rm.rel, '_parse_ofv', unparse(d)[:100],
+                              'the final OFV is taken from a table that did not pass the subproblem / design-optimality filter',
+                              line=d.lineno,
+                              witness='an estimation table followed by a D-OPTIMALITY evaluation table, or subproblem=1 of 2: the '
+                                      'reported ofv is the design criterion / the OFV of another subproblem while ofv_iterations '
+                                      'ends at the right value')
+    Z19 = chk.rule('Z19', 'NONMEMTableFile._parse_table: the [A-Z]*OBJ -> OBJ header normalisation dominates the construction of '
+                          'every table class that reads the OBJ column', floor=2)
+    tm = repo.module('pharmpy.model.external.nonmem.table')
+    tf = tm.classes.get('NONMEMTableFile')
+    pt = tf.methods.get('_parse_table') if tf else None
+    if pt is None:
+        raise AnalysisError('Z19: NONMEMTableFile._parse_table not found')
+    readers = {c.name for c in dict.values(tm.classes) if any(
+        isinstance(x, ast.Constant) and x.value == 'OBJ' for m_ in c.methods.values() for x in ast.walk(m_.node))}
+    cfg = CFG(pt.node)
+    norm = [n for n in cfg.nodes.values() if n.ast is not None and n.kind == 'stmt' and any(
+        isinstance(c, ast.Call) and (dotted(c.func) or '').endswith('sub') and len(c.args) >= 2
+        and isinstance(c.args[0], ast.Constant) and str(c.args[0].value).endswith('OBJ')
+        and isinstance(c.args[1], ast.Constant) and c.args[1].value == 'OBJ' for c in ast.walk(n.ast))]
+    if not norm or not readers:
+        raise AnalysisError(f'Z19: normalisation ({len(norm)}) or table classes reading OBJ ({sorted(readers)}) not found')
+    for n in cfg.nodes.values():
+        if n.ast is None or n.kind != 'stmt':
+            continue
+        for c in [c for c in ast.walk(n.ast) if isinstance(c, ast.Call) and isinstance(c.func, ast.Name) and c.func.id in readers]:
+            ok = any(cfg.dominates(m_.id, n.id) for m_ in norm)
+            chk.instance(Z19, f'_parse_table: {c.func.id}(..) built from normalised text: {ok}')
+            if not ok:
+                chk.violation(Z19, tm.rel, pt.qualname, unparse(c)[:80],
+                              f'{c.func.id} reads the column OBJ, but its text reaches it without the SAEMOBJ/MCMCOBJ -> OBJ '
+                              f'normalisation', line=c.lineno,
+                              witness='a phi file written by SAEM or BAYES: PhiTable.iofv raises KeyError, _parse_phi swallows it '
+                                      'and individual_ofv / individual_estimates are silently None')
